@@ -2,6 +2,7 @@ SPECIFICATION MCSpec
 CONSTANTS T = 3
  N = 5
  AggMode = "code"
+ Misfiled = TRUE
  FailMode = "abort"
 INVARIANTS TypeOK GroupValid NothingOnFault AllOrNothing PublishOnOK ErrMeansNothing
 CHECK_DEADLOCK FALSE
